@@ -205,6 +205,90 @@ func (e *Engine) installExternals() {
 		}
 		return store(fr, []Value{typedField(a[0].(*Value)), u})
 	}
+	x["(*sync/atomic.Bool).CompareAndSwap"] = func(fr *frame, a []Value) Value {
+		toU := func(v Value) Value {
+			if e.branch(v) {
+				return uint64(1)
+			}
+			return uint64(0)
+		}
+		return cas(fr, []Value{typedField(a[0].(*Value)), toU(a[1]), toU(a[2])})
+	}
+	x["(*sync/atomic.Bool).Swap"] = func(fr *frame, a []Value) Value {
+		var u Value = uint64(0)
+		if e.branch(a[1]) {
+			u = uint64(1)
+		}
+		old := swap(fr, []Value{typedField(a[0].(*Value)), u})
+		return e.notV(e.scalarEq(old, uint64(0)))
+	}
+	// atomic.Value{ v any }: the interface value itself is the atomically accessed cell
+	anyField := func(p *Value) *Value {
+		s := (*p).(Struct)
+		return &s[0]
+	}
+	x["(*sync/atomic.Value).Load"] = func(fr *frame, a []Value) Value {
+		return load(fr, []Value{anyField(a[0].(*Value))})
+	}
+	x["(*sync/atomic.Value).Store"] = func(fr *frame, a []Value) Value {
+		if a[1].(Iface).T == nil {
+			e.rtPanic("sync/atomic: store of nil value into Value")
+		}
+		return store(fr, []Value{anyField(a[0].(*Value)), a[1]})
+	}
+	x["(*sync/atomic.Value).Swap"] = func(fr *frame, a []Value) Value {
+		if a[1].(Iface).T == nil {
+			e.rtPanic("sync/atomic: swap of nil value into Value")
+		}
+		return swap(fr, []Value{anyField(a[0].(*Value)), a[1]})
+	}
+	x["(*sync/atomic.Value).CompareAndSwap"] = func(fr *frame, a []Value) Value {
+		p := anyField(a[0].(*Value))
+		var res bool
+		e.atomicOp(fr.g, p, func() {
+			if e.branch(e.equals(nil, *p, a[1])) {
+				*p = a[2]
+				res = true
+			}
+		})
+		return res
+	}
+
+	// ---- sort.Slice / SliceStable: insertion sort driven by the caller's less function
+	// (stable; every comparison is a call of less, so symbolic keys fork as they would in any sort)
+	sortSlice := func(fr *frame, a []Value) Value {
+		itf := a[0].(Iface)
+		xs, ok := itf.V.([]Value)
+		if !ok {
+			panic(engineErr("sort.Slice of %s", describeValue(itf.V)))
+		}
+		for i := 1; i < len(xs); i++ {
+			for j := i; j > 0; j-- {
+				if !e.branch(e.call(fr, token.NoPos, a[1], []Value{int64(j), int64(j - 1)})) {
+					break
+				}
+				xs[j], xs[j-1] = xs[j-1], xs[j]
+			}
+		}
+		return nil
+	}
+	// maps.Clone's runtime helper
+	x["maps.clone"] = func(fr *frame, a []Value) Value {
+		itf := a[0].(Iface)
+		m, ok := itf.V.(*Map)
+		if !ok || m == nil {
+			return itf
+		}
+		c := newMap(m.keyT)
+		for _, en := range m.entries {
+			if !en.dead {
+				c.insert(e, en.k, copyVal(en.v))
+			}
+		}
+		return Iface{T: itf.T, V: c}
+	}
+	x["sort.Slice"] = sortSlice
+	x["sort.SliceStable"] = sortSlice
 
 	// ---- reflect
 	x["reflect.TypeOf"] = func(fr *frame, a []Value) Value {
@@ -397,8 +481,47 @@ func (e *Engine) installExternals() {
 	x["fmt.Println"] = func(fr *frame, a []Value) Value { return Tuple{int64(0), Iface{}} }
 	x["fmt.Printf"] = func(fr *frame, a []Value) Value { return Tuple{int64(0), Iface{}} }
 	x["fmt.Print"] = func(fr *frame, a []Value) Value { return Tuple{int64(0), Iface{}} }
-	x["log.Printf"] = func(fr *frame, a []Value) Value { return nil }
-	x["log.Println"] = func(fr *frame, a []Value) Value { return nil }
+	// logging has no effect on the properties: empty bodies
+	for _, n := range []string{"Printf", "Println", "Print"} {
+		x["log."+n] = func(fr *frame, a []Value) Value { return nil }
+		x["(*log.Logger)."+n] = func(fr *frame, a []Value) Value { return nil }
+	}
+	x["log.SetOutput"] = func(fr *frame, a []Value) Value { return nil }
+	x["log.SetFlags"] = func(fr *frame, a []Value) Value { return nil }
+	x["log.Default"] = func(fr *frame, a []Value) Value { return (*Value)(nil) }
+	x["fmt.Sprintln"] = func(fr *frame, a []Value) Value {
+		args := a[0].([]Value)
+		f := strings.TrimSuffix(strings.Repeat("%v ", len(args)), " ") + "\n"
+		return e.sprintf(f, args)
+	}
+	// Fprintf and friends: format, then hand the bytes to the writer's Write method
+	fprint := func(fr *frame, w Value, text Value) Value {
+		itf := w.(Iface)
+		if itf.T == nil {
+			e.rtPanic("invalid memory address or nil pointer dereference")
+		}
+		m := e.lookupMethodByName(itf.T, "Write")
+		if m == nil {
+			panic(engineErr("fmt.Fprint*: writer %s has no Write method", itf.T))
+		}
+		return e.call(fr, token.NoPos, m, []Value{itf.V, e.stringToBytes(text)})
+	}
+	x["fmt.Fprintf"] = func(fr *frame, a []Value) Value {
+		f, ok := a[1].(string)
+		if !ok {
+			panic(engineErr("fmt.Fprintf with symbolic format"))
+		}
+		return fprint(fr, a[0], e.sprintf(f, a[2].([]Value)))
+	}
+	x["fmt.Fprint"] = func(fr *frame, a []Value) Value {
+		args := a[1].([]Value)
+		return fprint(fr, a[0], e.sprintf(strings.Repeat("%v", len(args)), args))
+	}
+	x["fmt.Fprintln"] = func(fr *frame, a []Value) Value {
+		args := a[1].([]Value)
+		f := strings.TrimSuffix(strings.Repeat("%v ", len(args)), " ") + "\n"
+		return fprint(fr, a[0], e.sprintf(f, args))
+	}
 
 	// ---- fmt.Sscan for integer targets (Go's base-prefix rules: a leading 0 means octal)
 	x["fmt.Sscan"] = func(fr *frame, a []Value) Value {
@@ -478,24 +601,115 @@ func (e *Engine) installExternals() {
 		}
 		return e.simplify(e.ts.StrPrefixOf(e.strTerm(p), e.strTerm(s)), nil)
 	}
-	conc2 := func(name string, f func(a, b string) Value) {
+	// both operands concrete: the host's implementation; otherwise SMT where there is a direct operator
+	sym2 := func(name string, conc func(a, b string) Value, sym func(a, b *Term) Value) {
 		x[name] = func(fr *frame, a []Value) Value {
-			s, ok1 := normStr(a[0]).(string)
-			t, ok2 := normStr(a[1]).(string)
-			if !ok1 || !ok2 {
+			s, t := normStr(a[0]), normStr(a[1])
+			cs, ok1 := s.(string)
+			ct, ok2 := t.(string)
+			if ok1 && ok2 {
+				return conc(cs, ct)
+			}
+			if sym == nil {
 				panic(engineErr("%s on symbolic strings", name))
 			}
-			return f(s, t)
+			return sym(e.strTerm(s), e.strTerm(t))
 		}
 	}
-	conc2("strings.HasSuffix", func(a, b string) Value { return strings.HasSuffix(a, b) })
-	conc2("strings.Index", func(a, b string) Value { return int64(strings.Index(a, b)) })
-	conc2("strings.TrimPrefix", func(a, b string) Value { return strings.TrimPrefix(a, b) })
-	conc2("strings.TrimSuffix", func(a, b string) Value { return strings.TrimSuffix(a, b) })
-	conc2("strings.EqualFold", func(a, b string) Value { return strings.EqualFold(a, b) })
-	x["strings.ToLower"] = func(fr *frame, a []Value) Value { return strings.ToLower(a[0].(string)) }
-	x["strings.ToUpper"] = func(fr *frame, a []Value) Value { return strings.ToUpper(a[0].(string)) }
-	x["strings.TrimSpace"] = func(fr *frame, a []Value) Value { return strings.TrimSpace(a[0].(string)) }
+	substr := func(s, from, n *Term) *Term { return e.ts.mk(sortStr, "str.substr", s, from, n) }
+	minus := func(a, b *Term) *Term { return e.ts.mk(sortInt, "-", a, b) }
+	sym2("strings.HasSuffix", func(a, b string) Value { return strings.HasSuffix(a, b) },
+		func(s, suf *Term) Value { return e.simplify(e.ts.mk(sortBool, "str.suffixof", suf, s), nil) })
+	sym2("strings.Index", func(a, b string) Value { return int64(strings.Index(a, b)) },
+		func(s, sub *Term) Value { return e.ts.mk(sortInt, "str.indexof", s, sub, e.ts.Int(0)) })
+	sym2("strings.TrimPrefix", func(a, b string) Value { return strings.TrimPrefix(a, b) },
+		func(s, p *Term) Value {
+			if e.branch(e.simplify(e.ts.StrPrefixOf(p, s), nil)) {
+				return e.simplify(substr(s, e.ts.StrLen(p), minus(e.ts.StrLen(s), e.ts.StrLen(p))), nil)
+			}
+			return s
+		})
+	sym2("strings.TrimSuffix", func(a, b string) Value { return strings.TrimSuffix(a, b) },
+		func(s, p *Term) Value {
+			if e.branch(e.simplify(e.ts.mk(sortBool, "str.suffixof", p, s), nil)) {
+				return e.simplify(substr(s, e.ts.Int(0), minus(e.ts.StrLen(s), e.ts.StrLen(p))), nil)
+			}
+			return s
+		})
+	sym2("strings.EqualFold", func(a, b string) Value { return strings.EqualFold(a, b) }, nil)
+	sym2("strings.Count", func(a, b string) Value { return int64(strings.Count(a, b)) }, nil)
+	sym2("strings.LastIndex", func(a, b string) Value { return int64(strings.LastIndex(a, b)) }, nil)
+	sym2("strings.ContainsAny", func(a, b string) Value { return strings.ContainsAny(a, b) }, nil)
+	sym2("strings.Trim", func(a, b string) Value { return strings.Trim(a, b) }, nil)
+	sym2("strings.TrimLeft", func(a, b string) Value { return strings.TrimLeft(a, b) }, nil)
+	sym2("strings.TrimRight", func(a, b string) Value { return strings.TrimRight(a, b) }, nil)
+	strSlice := func(xs []string) Value {
+		out := make([]Value, len(xs))
+		for i, s := range xs {
+			out[i] = s
+		}
+		return out
+	}
+	sym2("strings.Split", func(a, b string) Value { return strSlice(strings.Split(a, b)) }, nil)
+	x["strings.SplitN"] = func(fr *frame, a []Value) Value {
+		s, ok1 := normStr(a[0]).(string)
+		sep, ok2 := normStr(a[1]).(string)
+		n, ok3 := a[2].(int64)
+		if !ok1 || !ok2 || !ok3 {
+			panic(engineErr("strings.SplitN on symbolic operands"))
+		}
+		return strSlice(strings.SplitN(s, sep, int(n)))
+	}
+	x["strings.Fields"] = func(fr *frame, a []Value) Value {
+		s, ok := normStr(a[0]).(string)
+		if !ok {
+			panic(engineErr("strings.Fields on a symbolic string"))
+		}
+		return strSlice(strings.Fields(s))
+	}
+	x["strings.Join"] = func(fr *frame, a []Value) Value {
+		var out Value = ""
+		for i, el := range a[0].([]Value) {
+			if i > 0 {
+				out = e.strBinop(token.ADD, out, a[1])
+			}
+			out = e.strBinop(token.ADD, out, el)
+		}
+		return out
+	}
+	x["strings.Repeat"] = func(fr *frame, a []Value) Value {
+		n, ok := a[1].(int64)
+		if !ok || n < 0 || n > 64 {
+			panic(engineErr("strings.Repeat with a symbolic or large count"))
+		}
+		var out Value = ""
+		for i := int64(0); i < n; i++ {
+			out = e.strBinop(token.ADD, out, a[0])
+		}
+		return out
+	}
+	x["strings.ReplaceAll"] = func(fr *frame, a []Value) Value {
+		s, ok1 := normStr(a[0]).(string)
+		o, ok2 := normStr(a[1]).(string)
+		n, ok3 := normStr(a[2]).(string)
+		if !ok1 || !ok2 || !ok3 {
+			panic(engineErr("strings.ReplaceAll on symbolic strings"))
+		}
+		return strings.ReplaceAll(s, o, n)
+	}
+	conc1 := func(name string, f func(string) string) {
+		x[name] = func(fr *frame, a []Value) Value {
+			s, ok := normStr(a[0]).(string)
+			if !ok {
+				panic(engineErr("%s on a symbolic string", name))
+			}
+			return f(s)
+		}
+	}
+	conc1("strings.ToLower", strings.ToLower)
+	conc1("strings.ToUpper", strings.ToUpper)
+	conc1("strings.TrimSpace", strings.TrimSpace)
+	conc1("strings.Title", strings.Title)
 
 	// ---- errors (New/Is/Unwrap are interpreted from source)
 	x["errors.As"] = func(fr *frame, a []Value) Value { return e.errorsAs(fr, a[0].(Iface), a[1].(Iface)) }
@@ -1001,7 +1215,17 @@ func (e *Engine) errorsAs(fr *frame, err Iface, target Iface) Value {
 		r := e.call(fr, token.NoPos, um, []Value{err.V})
 		next, ok := r.(Iface)
 		if !ok {
-			return false // Unwrap() []error not supported here
+			// Unwrap() []error (errors.Join, fmt.Errorf with several %w): depth-first, in order
+			if list, isList := r.([]Value); isList {
+				for _, el := range list {
+					if sub, isI := el.(Iface); isI && sub.T != nil {
+						if e.branch(e.errorsAs(fr, sub, target)) {
+							return true
+						}
+					}
+				}
+			}
+			return false
 		}
 		err = next
 	}
